@@ -63,9 +63,10 @@ type pxClosure struct {
 }
 
 type PXState struct {
-	Flags map[string]bool
-	cells map[ssa.Value]pxVal
-	regs  map[ssa.Value]pxVal
+	Flags  map[string]bool
+	cells  map[ssa.Value]pxVal
+	regs   map[ssa.Value]pxVal
+	defers []*ssa.Defer // deferred calls of the frames on the path, innermost last; run at RunDefers
 }
 
 func (s *PXState) clone() *PXState {
@@ -79,6 +80,7 @@ func (s *PXState) clone() *PXState {
 	for k, v := range s.regs {
 		n.regs[k] = v
 	}
+	n.defers = append([]*ssa.Defer{}, s.defers...)
 	return n
 }
 
@@ -94,6 +96,9 @@ func (s *PXState) hash() string {
 	}
 	for k, v := range s.regs {
 		parts = append(parts, fmt.Sprintf("r:%p=%s", k, v))
+	}
+	for _, d := range s.defers {
+		parts = append(parts, fmt.Sprintf("d:%p", d))
 	}
 	sort.Strings(parts)
 	return strings.Join(parts, ";")
@@ -333,6 +338,25 @@ func (p *PX) from(fr *pxFrame, b *ssa.BasicBlock, idx int, st *PXState, depth in
 					out = append(out, p.from(fr, b, i+1, rs, depth)...)
 				}
 				return out
+			}
+		case *ssa.Defer:
+			st.defers = append(st.defers, x)
+		case *ssa.RunDefers:
+			// the deferred calls of this frame run now, last first
+			var keep []*ssa.Defer
+			var mine []*ssa.Defer
+			for _, d := range st.defers {
+				if d.Parent() == fr.fn {
+					mine = append(mine, d)
+				} else {
+					keep = append(keep, d)
+				}
+			}
+			st.defers = keep
+			for j := len(mine) - 1; j >= 0; j-- {
+				if p.OnCall != nil {
+					p.OnCall(st, mine[j])
+				}
 			}
 		case *ssa.If:
 			c := p.Eval(fr, st, x.Cond)
